@@ -51,6 +51,27 @@ Theorem C09_extra : forall (t : list Q) (f M : positive),
 Proof. exact rebin_table_centres. Qed.
 Print Assumptions C09_extra.
 
+(* WCS-backed extra coords: each pixel dimension of the extra WCS gets the factor and offset of the cube axis it is
+   mapped to, so that - whatever the mapping - the resampled extra WCS asked at the extra-pixel position of cube position
+   E' answers with the source extra WCS at the position of E' * factor + offset; for rebin that is the block centre *)
+Theorem C09_extra_wcs_mapped : forall (W : list Q -> list Q) n pm factor offset E',
+  length factor = n -> length offset = n -> length E' = n -> Forall (fun p => (p < n)%nat) pm ->
+  ec_resampled W n pm factor offset (ec_pixel n pm E') = W (ec_pixel n pm (scale factor offset E')).
+Proof. exact ec_resample_registered. Qed.
+Print Assumptions C09_extra_wcs_mapped.
+
+Theorem C09_extra_wcs_block_centres : forall (W : list Q -> list Q) n pm fs E',
+  length fs = n -> length E' = n -> Forall (fun p => (p < n)%nat) pm ->
+  ec_resampled W n pm fs (map rebin_offset fs) (ec_pixel n pm E') = W (ec_pixel n pm (scale fs (map rebin_offset fs) E')).
+Proof. exact ec_rebin_registered. Qed.
+Print Assumptions C09_extra_wcs_block_centres.
+
+(* non-vacuity: a (4, 6) cube rebinned by (2, 3); the extra WCS has one pixel dimension, mapped to the cube's pixel axis 0
+   (array axis 1, factor 3): output element (1, 1) sits at source extra pixel 1 * 3 + 1 = 4 *)
+Example C09_extra_wcs_nonvacuous :
+  ec_resampled (fun p => p) 2 [0%nat] [2; 3] (map rebin_offset [2; 3]) (ec_pixel 2 [0%nat] [1; 1]) = [1 * 3 + (3 - 1) / 2].
+Proof. reflexivity. Qed.
+
 Example C09_nonvacuous :
   list_eqb (option_eqb Qeq_bool) (rebin_table [0; 10; 20; 30; 40; 50] 6 2) [Some 5; Some 25; Some 45] = true
   /\ list_eqb Qeq_bool (resample_grid (rebin_offset 3) 6 3) [1; 4] = true.
